@@ -1100,39 +1100,43 @@ package scipipe
 //@ func upstreamProcsForProc(proc) (procs)
 //@   props C16
 //@   modifies new(map[string]WorkflowProcess)
+// A call for the upstream of the very process this call is about would never return (the function is deterministic on an
+// unchanged heap): a process is not its own upstream. (Repaired defect F12: the feeder ports of FromStr & co. belong to
+// the consuming process itself.)
+//@   atcall upstreamProcsForProc never-asks-for-its-own-upstream-again[C16]: $arg0 != proc
 //@   ensures fresh: fresh(procs) && procs != nil
 //@   ensures keyed-by-name: keyedByName(procs)
-//@   ensures direct-upstream-listed: forall q ref :: q != nil && directUp(q, proc) ==> procName(q) in procs
+//@   ensures direct-upstream-listed: forall q ref :: q != nil && q != proc && directUp(q, proc) ==> procName(q) in procs
 //@   ensures closed-under-upstream: forall k string, q ref :: k in procs && q != nil && directUp(q, procOf(k)) ==> procName(q) in procs
 //@   ensures only-upstream: forall k string :: k in procs ==> directUp(procOf(k), proc) || (exists k2 string :: k2 in procs && directUp(procOf(k), procOf(k2)))
 //@   loop 0 invariant fresh: fresh(procs) && procs != nil
 //@   loop 0 invariant vis: forall i string :: $visited[i] ==> i in inPortsOf(proc)
 //@   loop 0 invariant keyed: keyedByName(procs)
-//@   loop 0 invariant direct: forall i string, r string :: $visited[i] && r in inPortsOf(proc)[i].RemotePorts && inPortsOf(proc)[i].RemotePorts[r].process != nil ==> procName(inPortsOf(proc)[i].RemotePorts[r].process) in procs
+//@   loop 0 invariant direct: forall i string, r string :: $visited[i] && r in inPortsOf(proc)[i].RemotePorts && inPortsOf(proc)[i].RemotePorts[r].process != nil && inPortsOf(proc)[i].RemotePorts[r].process != proc ==> procName(inPortsOf(proc)[i].RemotePorts[r].process) in procs
 //@   loop 0 invariant closed: forall k string, q ref :: k in procs && q != nil && directUp(q, procOf(k)) ==> procName(q) in procs
 //@   loop 0 invariant only-upstream: forall k string :: k in procs ==> directUp(procOf(k), proc) || (exists k2 string :: k2 in procs && directUp(procOf(k), procOf(k2)))
 //@   loop 1 invariant fresh: fresh(procs) && procs != nil
 //@   loop 1 invariant cur: inp != nil && (exists i string :: i in inPortsOf(proc) && inPortsOf(proc)[i] == inp)
 //@   loop 1 invariant vis: forall r string :: $visited[r] ==> r in inp.RemotePorts
 //@   loop 1 invariant keyed: keyedByName(procs)
-//@   loop 1 invariant direct-prev: forall i string, r string :: $visited0[i] && inPortsOf(proc)[i] != inp && r in inPortsOf(proc)[i].RemotePorts && inPortsOf(proc)[i].RemotePorts[r].process != nil ==> procName(inPortsOf(proc)[i].RemotePorts[r].process) in procs
-//@   loop 1 invariant direct-cur: forall r string :: $visited[r] && inp.RemotePorts[r].process != nil ==> procName(inp.RemotePorts[r].process) in procs
+//@   loop 1 invariant direct-prev: forall i string, r string :: $visited0[i] && inPortsOf(proc)[i] != inp && r in inPortsOf(proc)[i].RemotePorts && inPortsOf(proc)[i].RemotePorts[r].process != nil && inPortsOf(proc)[i].RemotePorts[r].process != proc ==> procName(inPortsOf(proc)[i].RemotePorts[r].process) in procs
+//@   loop 1 invariant direct-cur: forall r string :: $visited[r] && inp.RemotePorts[r].process != nil && inp.RemotePorts[r].process != proc ==> procName(inp.RemotePorts[r].process) in procs
 //@   loop 1 invariant closed: forall k string, q ref :: k in procs && q != nil && directUp(q, procOf(k)) ==> procName(q) in procs
 //@   loop 1 invariant only-upstream: forall k string :: k in procs ==> directUp(procOf(k), proc) || (exists k2 string :: k2 in procs && directUp(procOf(k), procOf(k2)))
 //@   loop 2 invariant fresh: fresh(procs) && procs != nil
 //@   loop 2 invariant vis: forall i string :: $visited[i] ==> i in inParamPortsOf(proc)
 //@   loop 2 invariant keyed: keyedByName(procs)
-//@   loop 2 invariant direct-in: forall i string, r string :: i in inPortsOf(proc) && r in inPortsOf(proc)[i].RemotePorts && inPortsOf(proc)[i].RemotePorts[r].process != nil ==> procName(inPortsOf(proc)[i].RemotePorts[r].process) in procs
-//@   loop 2 invariant direct: forall i string, r string :: $visited[i] && r in inParamPortsOf(proc)[i].RemotePorts && inParamPortsOf(proc)[i].RemotePorts[r].process != nil ==> procName(inParamPortsOf(proc)[i].RemotePorts[r].process) in procs
+//@   loop 2 invariant direct-in: forall i string, r string :: i in inPortsOf(proc) && r in inPortsOf(proc)[i].RemotePorts && inPortsOf(proc)[i].RemotePorts[r].process != nil && inPortsOf(proc)[i].RemotePorts[r].process != proc ==> procName(inPortsOf(proc)[i].RemotePorts[r].process) in procs
+//@   loop 2 invariant direct: forall i string, r string :: $visited[i] && r in inParamPortsOf(proc)[i].RemotePorts && inParamPortsOf(proc)[i].RemotePorts[r].process != nil && inParamPortsOf(proc)[i].RemotePorts[r].process != proc ==> procName(inParamPortsOf(proc)[i].RemotePorts[r].process) in procs
 //@   loop 2 invariant closed: forall k string, q ref :: k in procs && q != nil && directUp(q, procOf(k)) ==> procName(q) in procs
 //@   loop 2 invariant only-upstream: forall k string :: k in procs ==> directUp(procOf(k), proc) || (exists k2 string :: k2 in procs && directUp(procOf(k), procOf(k2)))
 //@   loop 3 invariant fresh: fresh(procs) && procs != nil
 //@   loop 3 invariant cur: pip != nil && (exists i string :: i in inParamPortsOf(proc) && inParamPortsOf(proc)[i] == pip)
 //@   loop 3 invariant vis: forall r string :: $visited[r] ==> r in pip.RemotePorts
 //@   loop 3 invariant keyed: keyedByName(procs)
-//@   loop 3 invariant direct-in: forall i string, r string :: i in inPortsOf(proc) && r in inPortsOf(proc)[i].RemotePorts && inPortsOf(proc)[i].RemotePorts[r].process != nil ==> procName(inPortsOf(proc)[i].RemotePorts[r].process) in procs
-//@   loop 3 invariant direct-prev: forall i string, r string :: $visited2[i] && inParamPortsOf(proc)[i] != pip && r in inParamPortsOf(proc)[i].RemotePorts && inParamPortsOf(proc)[i].RemotePorts[r].process != nil ==> procName(inParamPortsOf(proc)[i].RemotePorts[r].process) in procs
-//@   loop 3 invariant direct-cur: forall r string :: $visited[r] && pip.RemotePorts[r].process != nil ==> procName(pip.RemotePorts[r].process) in procs
+//@   loop 3 invariant direct-in: forall i string, r string :: i in inPortsOf(proc) && r in inPortsOf(proc)[i].RemotePorts && inPortsOf(proc)[i].RemotePorts[r].process != nil && inPortsOf(proc)[i].RemotePorts[r].process != proc ==> procName(inPortsOf(proc)[i].RemotePorts[r].process) in procs
+//@   loop 3 invariant direct-prev: forall i string, r string :: $visited2[i] && inParamPortsOf(proc)[i] != pip && r in inParamPortsOf(proc)[i].RemotePorts && inParamPortsOf(proc)[i].RemotePorts[r].process != nil && inParamPortsOf(proc)[i].RemotePorts[r].process != proc ==> procName(inParamPortsOf(proc)[i].RemotePorts[r].process) in procs
+//@   loop 3 invariant direct-cur: forall r string :: $visited[r] && pip.RemotePorts[r].process != nil && pip.RemotePorts[r].process != proc ==> procName(pip.RemotePorts[r].process) in procs
 //@   loop 3 invariant closed: forall k string, q ref :: k in procs && q != nil && directUp(q, procOf(k)) ==> procName(q) in procs
 //@   loop 3 invariant only-upstream: forall k string :: k in procs ==> directUp(procOf(k), proc) || (exists k2 string :: k2 in procs && directUp(procOf(k), procOf(k2)))
 
